@@ -19,10 +19,15 @@ Section Generated.
     forallb (fun p => is_safe (snd p) (fst p)) (combine (gen_methods cond fn cnt) gen_self_ok) = true.
   Proof. vm_compute. reflexivity. Qed.
 
-  (* every regenerated apply-type method returns a new object on every path *)
+  (* every regenerated apply-type method returns a new object on every path - except
+     OptionalPassthrough, which hands the (validated) argument back when `passthrough` is set *)
+  Definition may_return_argument : list string :=
+    ["OptionalPassthrough.transform"; "OptionalPassthrough.inverse_transform"]%string.
+
   Theorem generated_apply_methods_return_new_objects :
-    forallb (fun p => snd p || returns_fresh (fst p)) (combine (gen_methods cond fn cnt) gen_self_ok)
-    = true.
+    forallb (fun q => snd (snd q) || returns_fresh (fst (snd q)) ||
+                      existsb (String.eqb (fst q)) may_return_argument)
+            (combine gen_names (combine (gen_methods cond fn cnt) gen_self_ok)) = true.
   Proof. vm_compute. reflexivity. Qed.
 
   (* the tables are aligned and the two anchored transformers are among them, in this order *)
